@@ -503,7 +503,15 @@ def collect_snapshot(case):
         vals = []
         for spec in case['locals']:
             vals.append(mat(spec, vals))
-        res = run_traced(rig.handler, fn, vals)
+        import deep.api.tracepoint.eventsnapshot as es
+        orig_now = es.time_ns
+        if case.get('clock_back'):
+            # the wall clock steps back between the hit and EventSnapshot.complete() (NTP correction, VM resume)
+            es.time_ns = lambda: rig.clock - int(case['clock_back'])
+        try:
+            res = run_traced(rig.handler, fn, vals)
+        finally:
+            es.time_ns = orig_now
         if 'exc' in res:
             raise core.Infra(f'generated host raised: {res["exc"]!r}')
         return rig.push.pushed[0] if rig.push.pushed else None
@@ -576,6 +584,7 @@ class TokenProvider:
 
     def provide(self):
         md = [tuple(kv) for kv in json.loads(self._config.C08_MD)]
+        Script.returns.append([list(kv) for kv in md])
         return tuple(md) if self._config.C08_MD_FORM == 'tuple' else md
 
 
@@ -583,6 +592,7 @@ class Script:
     """what ScriptedProvider does on each call (one script per run_auth)"""
     calls = 0
     raised = 0
+    returns = []             # what provide() actually returned, call by call (TokenProvider and ScriptedProvider)
     fail_first = 0
     gate_first = False
     md = []
@@ -593,6 +603,7 @@ class Script:
     def reset(cls, cfg, gate):
         cls.calls = 0
         cls.raised = 0
+        cls.returns = []
         cls.fail_first = int(cfg.get('fail_first') or 0)
         cls.gate_first = gate
         cls.md = [tuple(kv) for kv in (cfg.get('custom_md') or [])]
@@ -617,6 +628,7 @@ class ScriptedProvider:
             Script.entered.set()
             if not Script.release.wait(30):
                 raise core.Infra('provider gate was never released')
+        Script.returns.append([list(kv) for kv in Script.md])
         return list(Script.md)
 
 
@@ -722,6 +734,24 @@ def run_auth(case):
     config = ConfigService(custom, tracepoints=TracepointConfigService())
     config.resource = Resource({k: mat_attr(v) for k, v in case['resource']})
     Script.reset(cfg, bool(case.get('concurrent')))
+    import deep.api.auth as auth_mod
+    orig_basic = auth_mod.BasicAuthProvider.provide
+
+    def recording_basic(self_):
+        r = orig_basic(self_)
+        Script.returns.append([list(kv) for kv in r])
+        return r
+    auth_mod.BasicAuthProvider.provide = recording_basic       # only records what the real provider returns
+    try:
+        return _run_auth(case, cfg, config, custom)
+    finally:
+        auth_mod.BasicAuthProvider.provide = orig_basic
+
+
+def _run_auth(case, cfg, config, custom):
+    from deep.grpc import GRPCService
+    from deep.poll import LongPoll
+    from deep.push.push_service import PushService
     rec = []
     if case.get('transport') == 'grpc':
         lb = loopback()
@@ -744,6 +774,7 @@ def run_auth(case):
 
     def entry(r, op):
         return {'kind': 'polled' if op == 'poll' else 'pushed', 'metadata': r['metadata'],
+                'supplied': (Script.returns[-1] if Script.returns else None),
                 'has_metadata_kw': r['has_metadata_kw'], 'request': dump_msg(r['request']), 'op': op}
 
     if case.get('concurrent'):
@@ -776,7 +807,7 @@ def run_auth(case):
         for e in errs:
             out.append({'kind': 'raised', 'error': e, 'op': '?', 'provider_raised': False})
         return {'wire': out, 'stored_resource': [[T(k), pyval(v)] for k, v in config.resource.attributes.items()],
-                'provider_calls': Script.calls}
+                'provider_calls': Script.calls, 'provider_returns': list(Script.returns)}
     for i, op in enumerate(case['ops']):
         n = len(rec)
         raised_before = Script.raised
@@ -792,7 +823,8 @@ def run_auth(case):
         out.append(entry(rec[-1], op))
     if case.get('transport') == 'grpc':
         grpc.channel.close()
-    return {'wire': out, 'stored_resource': [[T(k), pyval(v)] for k, v in config.resource.attributes.items()]}
+    return {'wire': out, 'stored_resource': [[T(k), pyval(v)] for k, v in config.resource.attributes.items()],
+            'provider_returns': list(Script.returns)}
 
 
 class GatedList(list):
@@ -1031,15 +1063,20 @@ def oracle(case, obs):
             v.append('KeyValue does not survive serialisation')
         return v
     exp = expected_metadata(case['cfg'])
+    has_provider = bool(case['cfg'].get('provider'))
+    if has_provider and case['cfg']['provider'].endswith('BasicAuthProvider'):
+        for r in obs.get('provider_returns', []):
+            if r != exp:
+                v.append(f'BasicAuthProvider supplied {r}; basic auth of these credentials is {exp}')
     if case.get('concurrent'):
         sent = [w for w in obs['wire'] if w['kind'] in ('polled', 'pushed')]
         if sorted(w['op'] for w in sent) != sorted(case['ops']):
             v.append(f'two overlapping operations {case["ops"]}: requests sent {[w["op"] for w in sent]}, '
                      f'errors {[w.get("error") for w in obs["wire"] if w["kind"] == "raised"]}')
         for w in sent:
-            if w['metadata'] != exp:
+            if w['metadata'] not in obs.get('provider_returns', []):
                 v.append(f'{w["op"]} request sent with metadata {w["metadata"]} while another thread was inside the '
-                         f'provider; the provider supplies {exp}')
+                         f'provider; the provider supplied {obs.get("provider_returns")}')
         return v
     fails = expected_provider_failures(case)
     for i, w in enumerate(obs['wire']):
@@ -1050,6 +1087,13 @@ def oracle(case, obs):
         elif w['kind'] == 'dropped':
             v.append(f'operation {i} ({w["op"]}) sent nothing')
         else:
+            if has_provider:
+                # the expectation is what the configured provider ACTUALLY returned (recorded at its provide())
+                if w.get('supplied') is None:
+                    v.append(f'operation {i} ({w["op"]}): a request was sent although the provider has not supplied '
+                             f'anything yet')
+                    continue
+                exp = w['supplied']
             # (through HTTP/2 the order between DIFFERENT keys is not part of what gRPC guarantees: multiset there)
             if case.get('transport') == 'grpc' and sorted(w['metadata']) != sorted(exp):
                 v.append(f'operation {i} ({w["op"]}): the server received metadata {w["metadata"]}, the provider '
@@ -1253,6 +1297,8 @@ def gen_snapshot(rng, stream='main'):
             'tp_id': rng.choice(['tp-1', 'é-tp', 'a' * 40]), 'args': args, 'watches': watches,
             'attrs': [gen_attr(rng, i) for i in range(rng.choice([0, 0, 1, 2, 4]))],
             'resource': [gen_attr(rng, 10 + i) for i in range(rng.choice([0, 1, 1, 3]))]}
+    if rng.random() < 0.12:
+        case['clock_back'] = rng.choice([1, 1000, 5_000_000_000, 3600 * 10 ** 9])
     if rng.random() < 0.2:
         case['capture'] = True             # completed on the return event: a CAPTURE watch result from the collector
     if stream == 'surrogate':
@@ -1424,7 +1470,8 @@ def corpus():
     return [
         base,
         two,                                                                    # two uploads converting at once
-        dict(base, capture=True, nested=False),                                 # CAPTURE source from the collector
+        dict(base, capture=True, nested=False),
+        dict(base, clock_back=5_000_000_000),                                   # wall clock stepped back 5 s (a7b49ff)                                 # CAPTURE source from the collector
         dict(base, attrs=[['status', {'sub': 'HTTPStatus.NOT_FOUND'}], ['color', {'sub': 'Color.RED'}],
                           ['ratio', {'sub': 'Ratio(0.25)'}]], resource=[['level', {'sub': 'Level.HIGH'}],
                                                                         ['prio', {'sub': 'Prio.TOP'}]]),
